@@ -254,14 +254,15 @@ var propRules = map[string]*PropSpec{
 		Technique:  "static analysis: loop-bound vs slice-length agreement over go/ssa; error-flow rules",
 	},
 	"C20": {
-		Rules:       []string{"A1.bsi", "P1", "U3", "A3.bsi", "P2"},
+		Rules:       []string{"A1.bsi", "P1", "U3", "A3.bsi", "P2", "U7"},
 		Explanation: explBase + " C20: queries never change the index, returned bitmaps are never the index's internal bitmaps, fan-out goroutines are joined.",
 		Decided: []string{
 			"worker goroutines assign no captured variable; the shared task is read-only for them",
 			"comparison constants (*big.Int, task fields) are never overwritten by the functions that receive them",
 			"no query ignores one of its parameters (found-set, operator, bounds) apart from two named, justified cases",
-			"no BSI query changes the contents of the index's planes or existence bitmap", "no query returns a pointer to an internal bitmap (eBM / bA[i]) of the index", "parallel executors pair every goroutine with WaitGroup.Done"},
-		NotDecided: []string{"the comparison automaton", "trie/cube shortcuts", "sums and min/max", "found-set restriction arithmetic"},
+			"no BSI query changes the contents of the index's planes or existence bitmap", "no query returns a pointer to an internal bitmap (eBM / bA[i]) of the index", "parallel executors pair every goroutine with WaitGroup.Done",
+			"functions with an arbitrary-precision result (SumBigValues, GetBigValue(s), MinMaxBig) compute no plane weight in a machine word"},
+		NotDecided: []string{"the comparison automaton", "trie/cube shortcuts", "sums and min/max beyond the width clause", "found-set restriction arithmetic"},
 		Technique:  techOwn,
 	},
 }
